@@ -49,10 +49,14 @@ var ErrIPFS = errors.New("model ipfs daemon: injected failure")
 // A parked call is atomic at the instant the harness completes it; a call
 // whose context is cancelled while parked has no effect.
 type IPFS struct {
-	mu     sync.Mutex
-	Table  map[string]api.IPFSPinStatus
-	Calls  []*Call
-	Decide func(c *Call) Action // nil = always Apply
+	// FailErr, when set, is the error of a Fail action instead of ErrIPFS
+	// (context.Canceled is what ipfshttp.Connector returns when it gives up
+	// on a pin/add that makes no progress).
+	FailErr error
+	mu      sync.Mutex
+	Table   map[string]api.IPFSPinStatus
+	Calls   []*Call
+	Decide  func(c *Call) Action // nil = always Apply
 	// ResolveF / BlockGetF are optional harness hooks.
 	ResolveF  func(path string) (cid.Cid, error)
 	BlockGetF func(c cid.Cid) ([]byte, error)
@@ -90,8 +94,12 @@ func (m *IPFS) begin(ctx context.Context, kind string, c cid.Cid, pin *api.Pin) 
 	if act == Fail {
 		m.mu.Lock()
 		call.Outcome = "error"
+		ferr := m.FailErr
 		m.mu.Unlock()
-		return call, Fail, ErrIPFS
+		if ferr == nil {
+			ferr = ErrIPFS
+		}
+		return call, Fail, ferr
 	}
 	if err := ctx.Err(); err != nil { // cancelled before it reached the daemon
 		m.mu.Lock()
